@@ -38,7 +38,7 @@ CHECKS = {
    tech="model-based property testing (proptest) with seeded schedule perturbation through a cfg-guarded hook"),
 
  "C01": dict(cat="exploration",
-   text="differential testing against an independent reference evaluator: generated (dataset, SELECT text) pairs over default+named graphs (empty graphs, same triple in several graphs) and a recursive query grammar (BGP, nested groups, UNION, GRAPH <iri>/?g, group-scoped FILTER, BIND, VALUES/UNDEF, sub-SELECT with modifiers, FROM/FROM NAMED, GROUP BY aggregates, DISTINCT/ORDER BY/LIMIT) run through execute_sparql_query (and the legacy volcano entry point); rows compared as multisets, sortedness under ORDER BY, legal-cut predicate under LIMIT; extra parts for ORDER BY over mixed-kind keys and for DISTINCT/GROUP BY over composite keys whose value tuples are easy to confuse (prefix-related IRIs, literals whose concatenations coincide); VALUES blocks repeat rows; a quarter of the cases run the query again on the used database; GRAPH ?g blocks that use ?g as a term over data about named graphs; nested and top-level ORDER BY on variables that are not projected (hidden-key judgement)",
+   text="differential testing against an independent reference evaluator: generated (dataset, SELECT text) pairs over default+named graphs (empty graphs, same triple in several graphs) and a recursive query grammar (BGP, nested groups, UNION, GRAPH <iri>/?g, group-scoped FILTER, BIND, VALUES/UNDEF, sub-SELECT with modifiers, FROM/FROM NAMED, GROUP BY aggregates, DISTINCT/ORDER BY/LIMIT) run through execute_sparql_query (and the legacy volcano entry point); rows compared as multisets, sortedness under ORDER BY, legal-cut predicate under LIMIT; extra parts for ORDER BY over mixed-kind keys and for DISTINCT/GROUP BY over composite keys whose value tuples are easy to confuse (prefix-related IRIs, literals whose concatenations coincide); VALUES blocks repeat rows; a quarter of the cases run the query again on the used database; GRAPH ?g blocks that use ?g as a term over data about named graphs; nested and top-level ORDER BY on variables that are not projected (hidden-key judgement); pairs of sub-SELECTs identical except for one modifier",
    note="trusted: the nested-loop SPARQL 1.1 algebra evaluator in harness/src/sparql.rs (written from the spec, no engine code) and the supported-fragment restrictions a-f of DESIGN C01 enforced by construction; SELECT * column order = first syntactic appearance; sizes bounded (<=40 default triples, depth <=3)",
    tech="property-based differential testing (proptest): grammar-based query generation + reference SPARQL algebra oracle"),
  "C02": dict(cat="exploration",
